@@ -1,6 +1,7 @@
 (* Proofs about KV.Yaml.Elems: ElementMatcher is the path selector [k=v]; lens laws of ElementSetter and
    ElementAppender on keyed lists; FieldMatcher / FieldClearer / Tee; SetLabel / SetAnnotation agree with put. *)
 From KV Require Import Yaml.Fns Yaml.FnsSpec Yaml.FnsProofs Yaml.Elems Yaml.Annot.
+From KV Require Import Base.RegexProofs.
 
 Ltac inv H := inversion H; subst; clear H.
 
@@ -70,6 +71,32 @@ Section Proofs.
   Proof.
     intros Hn F. apply String.eqb_neq in Hn. unfold field_matcher. cbn [is_null]. now rewrite Hn, F.
   Qed.
+
+  (* FieldMatcher{StringRegexValue}: with the anchored literal ^(v)$ it is Match(v); an unanchored literal also finds
+     the text inside longer values; with a Name the expression plays no role *)
+  Lemma field_matcher_regex_anchored_literal v x :
+    field_matcher_regex nonstr "" (Some (anchor (lit v))) x = fm_match nonstr v x.
+  Proof.
+    unfold field_matcher_regex, fm_match, field_matcher. cbn [String.eqb].
+    destruct (is_null x); [reflexivity|]. destruct x as [t st s| |]; try reflexivity.
+    assert (E : matches (anchor (lit v)) s = String.eqb s v).
+    { destruct (matches (anchor (lit v)) s) eqn:M.
+      - apply anchor_exact in M. apply M_lit in M. subst. now rewrite String.eqb_refl.
+      - destruct (String.eqb_spec s v) as [->|Hne]; [|reflexivity].
+        assert (H : matches (anchor (lit v)) v = true) by (apply anchor_exact; apply M_lit; reflexivity).
+        congruence. }
+    rewrite E. reflexivity.
+  Qed.
+
+  Lemma field_matcher_regex_named name r x :
+    name <> "" -> field_matcher_regex nonstr name r x = fm_get nonstr name x.
+  Proof. intros Hn. unfold field_matcher_regex. apply String.eqb_neq in Hn. now rewrite Hn. Qed.
+
+  Example field_matcher_regex_searches :
+    field_matcher_regex nonstr "" (Some (lit "x")) (Scalar TStr SPlain "axb") =
+      Ok (Scalar TStr SPlain "axb", Some (Scalar TStr SPlain "axb")) /\
+    fm_match nonstr "x" (Scalar TStr SPlain "axb") = Ok (Scalar TStr SPlain "axb", None).
+  Proof. split; reflexivity. Qed.
 
   (* ---------- ElementMatcher with one key is the path part [nm=v] ---------- *)
   Lemma em_elem_single nm v e :
